@@ -220,7 +220,7 @@ func (o *filterOp) run() (out string) {
 	return fmt.Sprintf("ok %s|same=%d|cfg=%d|src-unchanged=%d", regDump(f), same, cfgSame, unchanged)
 }
 
-var regexPool = []string{"^e_", "^w_", "^n_", "dnsname", "^e_.*_(ca|crl)_", "rsa|ecdsa", "^$", ".*", "_tld$", "^e_ext_san", "x{3}", "^[a-m]", "sub_cert", "(?i)SMIME", "^.{0,20}$"}
+var regexPool = []string{"^e_", "^w_", "^n_", "dnsname", "^e_.*_(ca|crl)_", "rsa|ecdsa", "^$", ".*", "_tld$", "^e_ext_san", "x{3}", "^[a-m]", "sub_cert", "(?i)SMIME", "^.{0,20}$", "", "(?:)", "^", "$", "()", "|", "\\z", "(?s).*", "[^\\x00]*"}
 
 func subFilter(out string, seed uint64, tier string, arg string) {
 	rng := NewRNG(seed)
@@ -325,6 +325,22 @@ func subFilter(out string, seed uint64, tier string, arg string) {
 	for _, s := range allSources {
 		emit(&filterOp{regSpec: "G", reg: g, is: []string{s}})
 		emit(&filterOp{regSpec: "G", reg: g, xs: []string{s}})
+	}
+	// every pattern of the pool (incl. the ones that match every name and the empty source text) with each kind of
+	// name list: the documented conflict does not depend on what the pattern matches
+	for _, pat := range regexPool {
+		re := regexp.MustCompile(pat)
+		k := gnames[rng.Intn(len(gnames))]
+		k2 := gnames[rng.Intn(len(gnames))]
+		emit(&filterOp{regSpec: "G", reg: g, nf: re})
+		emit(&filterOp{regSpec: "G", reg: g, nf: re, in: []string{k}})
+		emit(&filterOp{regSpec: "G", reg: g, nf: re, ex: []string{k}})
+		emit(&filterOp{regSpec: "G", reg: g, nf: re, in: []string{k}, ex: []string{k2}})
+		emit(&filterOp{regSpec: "G", reg: g, nf: re, in: []string{"no_such_lint"}})
+		emit(&filterOp{regSpec: "G", reg: g, nf: re, in: []string{}, ex: []string{}})
+		emit(&filterOp{regSpec: "G", reg: g, nf: re, in: []string{""}})
+		emit(&filterOp{regSpec: "G", reg: g, nf: re, is: []string{allSources[rng.Intn(len(allSources))]}})
+		emit(&filterOp{regSpec: "G", reg: g, nf: re, in: []string{k}, xs: []string{allSources[rng.Intn(len(allSources))]}})
 	}
 	for i := 0; i < nG; i++ {
 		emit(genOpts(g, "G", gnames))
